@@ -3,6 +3,7 @@ import ast
 
 from ..model import (AnalysisError, FUNC_TYPES, U, call_attr, call_name, dotted, enclosing, guard_texts, short, walk_body, const_str)
 from ..util import params, find_calls, assigns_to, trace, stmt_of
+from ..absint import unroll_literal_loops
 
 IR = "insights.parsers.installed_rpms"
 RV = "insights.parsers.rpm_vercmp"
@@ -328,6 +329,8 @@ def r2_field_order(cx):
     cx.rule("C13.R2", "epoch, then version, then release; each compared field against the same field", floor=27)
     m = cx.repo.module(RV)
     fn = m.func("rpm_version_compare", "C13.R2")
+    # view: a loop over a literal tuple of field names with getattr is the sequence of per-field comparisons
+    unroll_literal_loops(fn, consts=m.top)
     for e in (-1, 0, 1):
         for v in (-1, 0, 1):
             for r in (-1, 0, 1):
